@@ -292,7 +292,11 @@ Cat == <<
   \* comparisons whose operator was given by name: the constructor's normalisation must not
   \* depend on the interpreter's mode
   (*113*) EALT(Cmp(V("lhs"), "<", KI(0))),                        \* same structure as (17)
-  (*114*) EALT(IfE(Cmp(vx, ">=", vy), N("Sum", << vx, Cmp(vy, "!=", KI(2)) >>), vz))
+  (*114*) EALT(IfE(Cmp(vx, ">=", vy), N("Sum", << vx, Cmp(vy, "!=", KI(2)) >>), vz)),
+  \* a parenthesised tuple as the LAST thing of the source text, built from source and from
+  \* constructors: same structure, same persistent key
+  (*115*) EP(IfE(cond, vx, N("Tup", << vy, KI(1) >>))),
+  (*116*) E(IfE(cond, vx, N("Tup", << vy, KI(1) >>)))
 >>
 NCat == Len(Cat)
 CatIds == 1..NCat
